@@ -550,6 +550,128 @@ def growth_obligations(F, res, reach):
     res.count("pass loops", n)
 
 
+ELEM_ACCESS = ("core::slice::<impl [T]>::first", "core::slice::<impl [T]>::last", "core::slice::<impl [T]>::get", "std::ops::Index::index",
+               "core::slice::<impl [T]>::iter", "std::iter::IntoIterator::into_iter", "std::vec::Vec::<T, A>::as_slice", "std::ops::Deref::deref",
+               "std::option::Option::<T>::as_ref", "std::option::Option::<T>::unwrap", "std::ops::Try::branch", "std::option::Option::<T>::as_deref",
+               "std::iter::Iterator::next", "std::iter::Iterator::peekable", "std::iter::Iterator::skip", "std::iter::Iterator::rev")
+
+
+def _names(proj):
+    """the named fields of a projection path (variant casts and positional payloads of Option / ControlFlow dropped)"""
+    return tuple(x for x in proj if x.startswith(".") and not x[1:].isdigit())
+
+
+def _elem_tag(through, iterated=False):
+    """which elements of the collection an access can be: "[0]" (first), "[1..]" (an iteration after skip), "[*]" (any)"""
+    names = [x.split("::")[-1] for x in through]
+    if "skip" in names:
+        return "[1..]"
+    if not iterated and "first" in names:
+        return "[0]"
+    return "[*]"
+
+
+def _same_child(k1, k2):
+    """can the two access paths denote the same child?"""
+    if len(k1) != len(k2) or not any(x.startswith("[") for x in k1):
+        return False
+    for a, b in zip(k1, k2):
+        if a.startswith("[") and b.startswith("["):
+            if {a, b} == {"[0]", "[1..]"}:
+                return False
+        elif a != b:
+            return False
+    return True
+
+
+def rec_fanout(F, res):
+    """G-RETYPE: the typing queries of the AST (`target_type` and the functions it is mutually recursive with) have no memo:
+    their cost is the number of times each node is asked.  Inside one invocation, the same child must not be handed to the
+    recursion twice on one path - once through an element accessor (`elements.first()`) and again by an iteration over the
+    same collection (`elements.iter().all(|x| x.target_type() ..)`), say - or a nest of depth d costs 2^d.  Decided per
+    function of the recursive component: the recursive calls (in the body and in the closures it hands to adaptors) are
+    keyed by the path from `self` to their argument, element accessors and iterations mapped to one abstract element; two calls
+    with the same key, one reachable from the other, are a finding."""
+    from ..common import callers_index
+    root = "tx3_lang::ast::DataExpr::target_type"
+    if root not in F.fns:
+        res.add([assumption("G-RETYPE", "tx3_lang::ast|typing queries", "crates/tx3-lang/src/ast.rs", "DataExpr::target_type not found under this name: not decided")])
+        return
+    # the recursive component of the root among the functions of tx3_lang (closures belong to their owner)
+    def owner_of(p):
+        f = F.fns.get(p)
+        return (f.get("owner") or p) if f else p
+    succ = {}
+    for p, f in F.fns.items():
+        if f["crate"] != "tx3_lang" or f.get("derived"):
+            continue
+        o = owner_of(p)
+        for _, t in mir.calls(f):
+            r = t.get("resolved") or (t.get("callee") if not t.get("trait") else None)
+            if r in F.fns and F.fns[r]["crate"] == "tx3_lang":
+                succ.setdefault(o, set()).add(owner_of(r))
+            for fr in t.get("fnrefs") or ():
+                if fr in F.fns and F.fns[fr]["crate"] == "tx3_lang" and owner_of(fr) != o:
+                    succ.setdefault(o, set()).add(owner_of(fr))
+
+    def reach(a):
+        seen, st = set(), [a]
+        while st:
+            x = st.pop()
+            for y in succ.get(x, ()):
+                if y not in seen:
+                    seen.add(y)
+                    st.append(y)
+        return seen
+    fwd = reach(root)
+    scc = {p for p in fwd if root in reach(p)} | ({root} if root in fwd else set())
+    res.count("functions in the typing recursion", len(scc))
+    if not scc:
+        res.add([ok("G-RETYPE", root + "|no child is typed twice per level", "crates/tx3-lang/src/ast.rs", "the typing query is not recursive")])
+        return
+    bad = []
+    for p in sorted(scc):
+        f = F.fns[p]
+        bodies = [f] + [c for c in F.fns.values() if c.get("owner") == p]
+        cfg = mir.CFG(f)
+        du = mir.DefUse(f)
+        entries = []       # (key, block in f, line)
+        for b in bodies:
+            db = du if b is f else mir.DefUse(b)
+            for bi, t in mir.calls(b):
+                r = t.get("resolved") or (t.get("callee") if not t.get("trait") else None)
+                if not (r in F.fns and owner_of(r) in scc) or not t["args"]:
+                    continue
+                if b is f:
+                    for o in mir.provenance(f, du, t["args"][0], transparent_extra=ELEM_ACCESS):
+                        if o.kind == "arg" and o.local == 1:
+                            elem = any(x in ELEM_ACCESS[:5] or x.endswith("::next") for x in o.through)
+                            entries.append((_names(o.proj) + ((_elem_tag(o.through),) if elem else ()), bi, t["line"]))
+                else:
+                    # inside a closure: its parameter is an element of what the adaptor (in f) iterates over
+                    org = mir.provenance(b, db, t["args"][0], transparent_extra=ELEM_ACCESS)
+                    if not any(o.kind == "arg" and o.local >= 2 for o in org):
+                        continue
+                    sub = tuple(x for o in org if o.kind == "arg" and o.local >= 2 for x in _names(o.proj))
+                    for bj, t2 in mir.calls(f):
+                        if b["path"] in (t2.get("fnrefs") or ()) and t2["args"]:
+                            for o in mir.provenance(f, du, t2["args"][0], transparent_extra=ELEM_ACCESS + ("std::iter::Iterator::map", "std::iter::Iterator::filter")):
+                                if o.kind == "arg" and o.local == 1:
+                                    entries.append((_names(o.proj) + (_elem_tag(o.through, iterated=True),) + sub, bj, t["line"]))
+        for i in range(len(entries)):
+            for j in range(i + 1, len(entries)):
+                k1, b1, l1 = entries[i]
+                k2, b2, l2 = entries[j]
+                if _same_child(k1, k2) and b1 != b2 and (b2 in cfg.reach_from(b1) or b1 in cfg.reach_from(b2)):
+                    bad.append((f, l2, "".join(x if not x.startswith("[") else "[]" for x in k1)))
+    key = root + "|no child is typed twice per level"
+    if bad:
+        f, line, path = bad[0]
+        res.add([finding("G-RETYPE", key, where(f, line), "%s asks for the type of `self%s` twice on one path (once through an element accessor, once by iterating the same collection): the typing query has no memo, so a literal nested d levels deep is typed 2^d times and the analysis of a 40-deep list does not terminate in practice" % (f["path"].split("::")[-2] + "::" + f["path"].split("::")[-1], path))])
+    else:
+        res.add([ok("G-RETYPE", key, "crates/tx3-lang/src/ast.rs", "%d functions in the recursion; none hands the same child to it twice on one path" % len(scc))])
+
+
 def run(ctx):
     F = ctx.F
     res = Result("C12")
@@ -570,6 +692,8 @@ def run(ctx):
     res.floor("panic sites", res.analysed.get("panic sites", 0), 60)
     loop_obligations(F, res, reach)
     growth_obligations(F, res, reach)
+    res.rule("G-RETYPE", "the memo-less typing recursion is entered at most once per child on a path (no 2^depth typing time)")
+    rec_fanout(F, res)
     # exponential re-parsing in the grammar
     R = e2.Reparse(F.grammar)
     sites = R.sites()
